@@ -72,7 +72,16 @@ pub async fn transfer_tcp<NewContext, Context, NewCodec, Codec>(
     let config = Arc::new(config);
     match context {
         Ok(context) => {
-            while let Ok((mut inbound, local_addr)) = listener.accept().await {
+            loop {
+                // a failing accept (e.g. descriptor exhaustion) must not end the service
+                let (mut inbound, local_addr) = match listener.accept().await {
+                    Ok(accepted) => accepted,
+                    Err(e) => {
+                        error!("[tcp] accept failed; error={}", e);
+                        time::sleep(Duration::from_millis(100)).await;
+                        continue;
+                    }
+                };
                 let context = context.clone();
                 let config = config.clone();
                 tokio::spawn(async move {
@@ -213,21 +222,42 @@ where
                 match client_server_cache.entry(key) {
                     Entry::Vacant(entry) => {
                         debug!("[udp] new binding; key={:?}", &_key);
-                        let out = new_out(&target, &context).await?;
-                        let (sink, relay_task) = new_binding(server_addr, client_local_tx.clone(), ((content, target), sender), _key, out, to_inbound_recv, to_outbound_send).await?;
-                        entry.insert(Binding {sink, relay_task});
+                        // a binding that cannot be set up costs this datagram, not the whole UDP service
+                        let out = match new_out(&target, &context).await {
+                            Ok(out) => out,
+                            Err(e) => {
+                                error!("[udp] new outbound failed; key={:?}, error={}", &_key, e);
+                                continue;
+                            }
+                        };
+                        match new_binding(server_addr, client_local_tx.clone(), ((content, target), sender), _key, out, to_inbound_recv, to_outbound_send).await {
+                            Ok((sink, relay_task)) => {
+                                entry.insert(Binding {sink, relay_task});
+                            }
+                            Err(e) => error!("[udp] new binding failed; error={}", e),
+                        }
                     }
                     Entry::Occupied(entry) => {
                         // client->server|outbound
                         let value = entry.into_mut();
                         if value.relay_task.is_finished() {
                             debug!("[udp] retry binding; key={:?}", &_key);
-                            let out = new_out(&target, &context).await?;
-                            let (sink, relay_task) = new_binding(server_addr, client_local_tx.clone(), ((content, target), sender), _key, out, to_inbound_recv, to_outbound_send).await?;
-                            value.sink = sink;
-                            value.relay_task = relay_task;
-                        } else {
-                            value.sink.send(to_outbound_send((content, target), server_addr)).await?;
+                            let out = match new_out(&target, &context).await {
+                                Ok(out) => out,
+                                Err(e) => {
+                                    error!("[udp] new outbound failed; key={:?}, error={}", &_key, e);
+                                    continue;
+                                }
+                            };
+                            match new_binding(server_addr, client_local_tx.clone(), ((content, target), sender), _key, out, to_inbound_recv, to_outbound_send).await {
+                                Ok((sink, relay_task)) => {
+                                    value.sink = sink;
+                                    value.relay_task = relay_task;
+                                }
+                                Err(e) => error!("[udp] retry binding failed; error={}", e),
+                            }
+                        } else if let Err(e) = value.sink.send(to_outbound_send((content, target), server_addr)).await {
+                            error!("[udp] send outbound failed; key={:?}, error={}", &_key, e);
                         }
                     }
                 }
